@@ -33,6 +33,7 @@ def units(tier, seed):
         {"sid": "basic", "family": "inline_s", "size": 4 if q else 5, "donor": ("inline_s", 3), "max_slices": 30 if q else 60},
         {"sid": "list", "family": "lists", "size": 10 if q else 12, "donor": ("lists", 8), "max_slices": 24 if q else 50},
         {"sid": "basic", "family": "blocks2", "size": 4 if q else 5, "donor": ("blocks2", 4), "max_slices": 30 if q else 60},
+        {"sid": "basic", "family": "links", "size": 4 if q else 5, "donor": ("links", 3), "max_slices": 24 if q else 50},
     ]
     extra = [
         {"sid": "table", "family": "table", "size": 10 if q else 12, "donor": ("table", 10), "max_slices": 20 if q else 40},
